@@ -236,6 +236,226 @@ fn disassemble_roundtrip(p: &str) -> String {
     }
 }
 
+/// Reference classification of every offset (a 15-line disassembler written from the Yellow Paper): the start of a
+/// complete PUSHn must be a PushN carrying exactly its n immediates, its immediates must be Nops, a PUSH cut short and
+/// its surviving immediates must be Invalid, every other byte must be the opcode that encodes to that byte.
+fn disassembly_matches_reference(code: &[u8]) -> Option<String> {
+    use storage_layout_extractor::opcode::{control::{Invalid, Nop}, memory::PushN};
+    let s = match InstructionStream::try_from(code) {
+        Ok(s) => s,
+        Err(e) => return if code.is_empty() || code.len() > 24576 { None } else { Some(format!("rejected: {e:?}").replace('"', "'")) },
+    };
+    if s.len() != code.len() || s.as_bytecode() != code {
+        return Some("length or re-encoding differs".to_string());
+    }
+    let t = s.new_thread(0).expect("thread");
+    let mut i = 0usize;
+    while i < code.len() {
+        let b = code[i];
+        let op = t.instruction(i as u32).expect("entry");
+        let any = op.as_ref().as_any();
+        if (0x60..=0x7f).contains(&b) {
+            let n = (b - 0x5f) as usize;
+            if i + n < code.len() {
+                match any.downcast_ref::<PushN>() {
+                    Some(p) if p.byte_size() as usize == n && p.bytes_data() == &code[i + 1..=i + n] => {}
+                    _ => return Some(format!("offset {i}: complete PUSH{n} decoded as {}", op.as_text_code())),
+                }
+                for j in i + 1..=i + n {
+                    let im = t.instruction(j as u32).expect("entry");
+                    if im.as_ref().as_any().downcast_ref::<Nop>().is_none() {
+                        return Some(format!("offset {j}: immediate of PUSH{n} decoded as {}", im.as_text_code()));
+                    }
+                }
+                i += n + 1;
+                continue;
+            }
+            for j in i..code.len() {
+                let im = t.instruction(j as u32).expect("entry");
+                if im.as_ref().as_any().downcast_ref::<Invalid>().is_none() {
+                    return Some(format!("offset {j}: part of a PUSH{n} cut short decoded as {}", im.as_text_code()));
+                }
+            }
+            break;
+        }
+        if op.as_byte() != b {
+            return Some(format!("offset {i}: byte {b:#x} decoded as {}", op.as_text_code()));
+        }
+        i += 1;
+    }
+    None
+}
+
+/// The reference comparison on the given code and on the family "prefix, PUSHn, k of its n immediates" for every n and
+/// every k = 0..=n (+ one trailing byte), with a JUMPDEST-valued immediate so that a mis-decoded immediate is visible.
+fn disassemble_reference(p: &str) -> String {
+    let mut problems = Vec::new();
+    let mut programs = 0usize;
+    if let Some(code) = hex_param(p, "hex") {
+        programs += 1;
+        if let Some(m) = disassembly_matches_reference(&code) {
+            problems.push(format!("{}: {m}", hex(&code[..code.len().min(40)])));
+        }
+    }
+    for n in 1..=32usize {
+        for k in 0..=n + 1 {
+            for prefix in [&[][..], &[0x5b][..], &[0x60, 0x5b][..]] {
+                let mut code = prefix.to_vec();
+                code.push(0x5f + n as u8);
+                code.extend(std::iter::repeat(0x5b).take(k.min(n)));
+                if k == n + 1 {
+                    code.push(0x00);
+                }
+                programs += 1;
+                if problems.len() < 3 {
+                    if let Some(m) = disassembly_matches_reference(&code) {
+                        problems.push(format!("{}: {m}", hex(&code)));
+                    }
+                }
+            }
+        }
+    }
+    format!("{{\"violates\": {}, \"programs\": {}, \"problems\": \"{}\"}}", !problems.is_empty(), programs, problems.join("; "))
+}
+
+/// analyze() on a family of programs that mask slot 0 singly and nested (two masks applied one after the other) and
+/// store the pieces elsewhere, plus stores to slots given in descending order: every returned layout must be ordered by
+/// (index, offset) and keep every entry inside its slot.
+fn layout_family_sorted(p: &str) -> String {
+    // check = 1: ordering only (default); check = 2: entries inside the slot only
+    let check = param(p, "check").unwrap_or(1);
+    let masks: [(usize, usize); 5] = [(0, 128), (128, 256), (192, 256), (0, 64), (64, 192)];
+    let mask = |lo: usize, hi: usize| {
+        let mut out = [0u8; 32];
+        for bit in lo..hi {
+            out[31 - bit / 8] |= 1 << (bit % 8);
+        }
+        out
+    };
+    let mut programs = Vec::new();
+    for a in 0..masks.len() {
+        for b in 0..masks.len() {
+            for c in 0..masks.len() {
+                let mut code = vec![0x60, 0x00, 0x54, 0x7f];
+                code.extend_from_slice(&mask(masks[a].0, masks[a].1));
+                code.extend_from_slice(&[0x16, 0x7f]);
+                code.extend_from_slice(&mask(masks[b].0, masks[b].1));
+                code.extend_from_slice(&[0x16, 0x60, 0x01, 0x55, 0x60, 0x00, 0x54, 0x7f]);
+                code.extend_from_slice(&mask(masks[c].0, masks[c].1));
+                code.extend_from_slice(&[0x16, 0x60, 0x02, 0x55, 0x00]);
+                programs.push(code);
+            }
+        }
+    }
+    // stores to slots in descending / mixed order, including indices that differ only in high bits
+    let mut code = Vec::new();
+    for hi in [3u8, 0, 2, 1] {
+        code.extend_from_slice(&[0x60, 0x01, 0x7f]);
+        let mut ix = [0u8; 32];
+        ix[0] = hi;
+        ix[31] = 9 - hi;
+        code.extend_from_slice(&ix);
+        code.push(0x55);
+    }
+    code.push(0x00);
+    programs.push(code);
+    let mut bad = String::new();
+    let mut analysed = 0usize;
+    for code in &programs {
+        if !bad.is_empty() {
+            break;
+        }
+        for _ in 0..2 {
+            let contract = Contract::new(code.clone(), Chain::Ethereum { version: EthereumVersion::Shanghai });
+            let r = storage_layout_extractor::new(contract, Config::default(), tc::Config::default(), LazyWatchdog.in_rc()).analyze();
+            if let Ok(layout) = r {
+                analysed += 1;
+                let keys: Vec<(ethnum::U256, usize)> = layout.slots().iter().map(|s| (s.index.0, s.offset)).collect();
+                let mut sorted = keys.clone();
+                sorted.sort();
+                if check == 1 && keys != sorted && bad.is_empty() {
+                    bad = format!("code {}: layout keys {:?} are not ordered by (index, offset)", hex(code), keys.iter().map(|k| format!("{:#x}@{}", k.0, k.1)).collect::<Vec<_>>());
+                }
+                if check == 2 && layout.slots().iter().any(|s| s.offset >= 256) && bad.is_empty() {
+                    bad = format!("code {}: layout entries {:?}: one starts outside its 256-bit slot", hex(code), keys.iter().map(|k| format!("{:#x}@{}", k.0, k.1)).collect::<Vec<_>>());
+                }
+            }
+        }
+    }
+    format!("{{\"violates\": {}, \"programs\": {}, \"layouts\": {}, \"problem\": \"{}\"}}", !bad.is_empty(), programs.len(), analysed, bad.replace('"', "'"))
+}
+
+/// analyze() (strict and permissive) on a corpus of hashed-slot idioms with boundary parameters: SHA3 over 0, 1, 2 or 3
+/// words of memory that is empty / holds a constant / holds call data, used as a storage key directly, with a constant
+/// added on either side, or hashed again, for SSTORE and SLOAD; plus masks, shifts and multiplications of loaded
+/// words by boundary constants.  No program may make the analysis panic.
+fn idiom_corpus_panics(_p: &str) -> String {
+    let mut programs: Vec<Vec<u8>> = Vec::new();
+    let preps: [&[u8]; 3] = [&[], &[0x60, 0x07, 0x5f, 0x52], &[0x5f, 0x35, 0x5f, 0x52, 0x60, 0x01, 0x60, 0x20, 0x52]];
+    for size in [0u8, 0x20, 0x40, 0x60] {
+        for prep in preps {
+            for shape in 0..4 {
+                for access in 0..2 {
+                    let mut c = prep.to_vec();
+                    if access == 0 {
+                        c.extend_from_slice(&[0x60, 0x01]); // value to store
+                    }
+                    match shape {
+                        0 => c.extend_from_slice(&[0x60, size, 0x5f, 0x20]),
+                        1 => c.extend_from_slice(&[0x60, 0x05, 0x60, size, 0x5f, 0x20, 0x01]),
+                        2 => c.extend_from_slice(&[0x60, size, 0x5f, 0x20, 0x60, 0x05, 0x01]),
+                        _ => c.extend_from_slice(&[0x60, size, 0x5f, 0x20, 0x5f, 0x52, 0x60, 0x20, 0x5f, 0x20]),
+                    }
+                    if access == 0 {
+                        c.push(0x55);
+                    } else {
+                        c.extend_from_slice(&[0x54, 0x50]);
+                    }
+                    c.push(0x00);
+                    programs.push(c);
+                }
+            }
+        }
+    }
+    // loaded word combined with boundary constants by AND / SHR / SHL / MUL / DIV, then stored elsewhere
+    for op in [0x16u8, 0x1c, 0x1b, 0x02, 0x04] {
+        for k in [0u8, 1, 8, 0xff] {
+            for wide in [false, true] {
+                let mut c = vec![0x5f, 0x54];
+                if wide {
+                    c.push(0x7f);
+                    c.extend(std::iter::repeat(k).take(32));
+                } else {
+                    c.extend_from_slice(&[0x60, k]);
+                }
+                c.extend_from_slice(&[op, 0x60, 0x01, 0x55, 0x00]);
+                programs.push(c);
+            }
+        }
+    }
+    let mut bad = String::new();
+    for code in &programs {
+        for permissive in [false, true] {
+            let code2 = code.clone();
+            let r = panic::catch_unwind(move || {
+                let mut config = Config::default();
+                config.permissive_errors = permissive;
+                let contract = Contract::new(code2, Chain::Ethereum { version: EthereumVersion::Shanghai });
+                let _ = storage_layout_extractor::new(contract, config, tc::Config::default(), LazyWatchdog.in_rc()).analyze();
+            });
+            if let Err(e) = r {
+                let msg = e.downcast_ref::<&str>().map(|s| s.to_string()).or_else(|| e.downcast_ref::<String>().cloned()).unwrap_or_default();
+                bad = format!("analyze() panics on {} ({}): {}", hex(code), if permissive { "permissive" } else { "strict" }, msg.replace('"', "'").replace('\n', " "));
+                break;
+            }
+        }
+        if !bad.is_empty() {
+            break;
+        }
+    }
+    format!("{{\"violates\": {}, \"programs\": {}, \"problem\": \"{}\"}}", !bad.is_empty(), programs.len(), bad.chars().take(300).collect::<String>())
+}
+
 fn str_param(json: &str, key: &str) -> Option<String> {
     let k = format!("\"{key}\"");
     let i = json.find(&k)?;
@@ -442,6 +662,34 @@ fn forest_step(p: &str) -> String {
         _ => {}
     }
     let mut bad = Vec::new();
+    // first the read-only view: the representation invariant of the post-state (what the solver's obligation states) ...
+    {
+        let (r, d) = ds.verif_parts();
+        let (rv, _) = r.verif_parts();
+        let (dv, _) = d.verif_parts();
+        let rep = |i: usize| rv.get(i).cloned().flatten();
+        for i in 0..rv.len().max(dv.len()) {
+            if let Some(p) = rep(i) {
+                if rep(p).is_none() {
+                    bad.push(format!("invariant: parent {p} of {i} is not a member"));
+                }
+            }
+            if dv.get(i).map_or(false, |x| x.is_some()) && rep(i) != Some(i) {
+                bad.push(format!("invariant: data kept at {i}, which is not a registered root"));
+            }
+        }
+    }
+    // ... and what a user sees of it: sets() lists every class that has data
+    if op != "sets" {
+        let listed: Vec<usize> = ds.sets().into_iter().map(|(k, _)| k).collect();
+        let (_, d) = ds.verif_parts();
+        let (dv, _) = d.verif_parts();
+        for i in 0..dv.len() {
+            if dv[i].as_ref().map_or(false, |x| x.0 != 0) && !listed.contains(&i) {
+                bad.push(format!("sets() does not list the class of {i} although it carries data"));
+            }
+        }
+    }
     let roots: Vec<usize> = (0..n).map(|i| ds.find(&i)).collect();
     for i in 0..n {
         for j in (i + 1)..n {
@@ -1032,6 +1280,9 @@ fn main() {
         "culled_size" => culled_size(&p),
         "fold_variant" => fold_variant(&p),
         "disassemble_roundtrip" => disassemble_roundtrip(&p),
+        "disassemble_reference" => disassemble_reference(&p),
+        "layout_family_sorted" => layout_family_sorted(&p),
+        "idiom_corpus_panics" => idiom_corpus_panics(&p),
         "permissive_bad_jump" => permissive_bad_jump(&p),
         _ => "{\"violates\": false, \"outcome\": \"unknown scenario\"}".to_string(),
     });
